@@ -4,6 +4,7 @@
 import numpy
 
 from jaqalpaq.error import JaqalError
+from jaqalpaq.core.register import Register
 from jaqalpaq.core.algorithm.walkers import TraceSerializer
 from jaqalpaq.core.result import ProbabilisticSubcircuit, ReadoutSubcircuit
 from jaqalpaq.emulator.backend import IndependentSubcircuitsBackend
@@ -78,6 +79,9 @@ class UnitarySerializedEmulator(IndependentSubcircuitsBackend):
             for param, val in zip(gatedef.parameters, gate.parameters.values()):
                 if param.classical:
                     argv.append(val)
+                elif isinstance(val, Register):
+                    # A register argument stands for all of its qubits, in order
+                    qind.extend(val.resolve_qubit(i)[1] for i in range(len(val)))
                 else:
                     qind.append(val.resolve_qubit()[1])
 
